@@ -281,6 +281,28 @@ func module(body []*st) *st {
 	return &st{kw: "module", arg: "m", kids: append(kids, body...)}
 }
 
+func typedTrees() []*st {
+	s := func(kw, arg string, kids ...*st) *st { return &st{kw: kw, arg: arg, kids: kids} }
+	var out []*st
+	for _, ns := range []string{"URN:Example:Seed", "urn:a#", "http://example.com/my ns", "HTTP://EXAMPLE.COM/%7euser/../x", "urn:\u00e9", "urn:a?b=c&d", "x"} {
+		out = append(out, s("module", "m", s("namespace", ns), s("prefix", "m"), leaf("l")))
+	}
+	out = append(out, s("module", "m", s("namespace", "urn:m"), s("prefix", "m"),
+		s("revision", "2020-02-29"), s("feature", "f"), s("identity", "i"),
+		s("typedef", "t1", s("type", "decimal64", s("fraction-digits", "2"), s("range", "1 | 3..4.50"))),
+		s("typedef", "t2", s("type", "string", s("length", "1 | 3..max"), s("pattern", "[a-z]+  x"))),
+		s("typedef", "t3", s("type", "enumeration", s("enum", "a b", s("value", "-7")))),
+		s("typedef", "t4", s("type", "bits", s("bit", "b", s("position", "0")))),
+		s("list", "li", s("key", "a  b"), s("unique", "c/d  a"), s("min-elements", "0"), s("max-elements", "unbounded"), s("ordered-by", "user"),
+			leaf("a"), leaf("b"), s("container", "c", leaf("d"))),
+		s("leaf", "lf", s("type", "m:t1"), s("if-feature", "m:f"), s("must", " ../a  =  'x y' "), s("when", "../b or(../c)"), s("config", "true"), s("mandatory", "false"), s("status", "deprecated"), s("default", "+1.50")),
+		s("leaf", "lr", s("type", "leafref", s("path", "/m:li/m:a"))),
+		s("identity", "j", s("base", "m:i")),
+		s("augment", "/m:li", leaf("z")),
+		s("deviation", "/m:li/m:b", s("deviate", "not-supported"))))
+	return out
+}
+
 func run(c *engine.Ctx) {
 	runConcurrent(c)
 	// tree set
@@ -303,6 +325,10 @@ func run(c *engine.Ctx) {
 			}
 		}
 	}
+	// statements whose argument is parsed into a typed value (URI, date, number, boolean, key list,
+	// path, expression ...): the tree reports the argument as it was written, not a re-spelling of
+	// the typed value
+	trees = append(trees, typedTrees()...)
 	c.Note(fmt.Sprintf("%d statement trees", len(trees)))
 	do := func(id, text string, exp []expNode, nt bool) {
 		if !c.Case(id) {
